@@ -124,7 +124,7 @@ class EnumType(AbstractType):
 
     @classmethod
     def from_dict(cls, d: dict[str, Any]) -> EnumType:
-        return EnumType(d["values"])
+        return EnumType(frozenset(d["values"]))
 
     @classmethod
     def from_string(cls, string: str) -> EnumType | None:
